@@ -13,6 +13,8 @@ class Scripted:
         self.sizes = list(sizes)
         self.backlog = 0
         self.counter = 0
+        self.held = b""
+        self.lens = []
 
     def _gen(self, k):
         out = bytes((self.counter + i) % 251 for i in range(k))
@@ -20,8 +22,19 @@ class Scripted:
         return out
 
     def decompress(self, data, max_length=-1):
+        out = self._decompress(data, max_length)
+        self.lens.append(len(out))
+        return out
+
+    def _decompress(self, data, max_length=-1):
+        if max_length is None or max_length < 0:
+            max_length = 1 << 62       # "no limit"
         if self.mode == "copy":
             return bytes(data)
+        if self.mode == "pass":
+            buf = self.held + bytes(data)
+            self.held = buf[max_length:]
+            return buf[:max_length]
         n = self.sizes.pop(0) if self.sizes else 0
         if self.mode == "honour":
             total = self.backlog + n
@@ -73,6 +86,66 @@ def impl_loop(case):
     except DecompressionError:
         return "stalled " + hexs(out.getvalue())
     return "done " + hexs(out.getvalue())
+
+
+def impl_stages(case):
+    stages, calls = case
+    from py7zr.compressor import SevenZipDecompressor
+    from py7zr.properties import COMPRESSION_METHOD
+    coders = [{"method": COMPRESSION_METHOD.COPY, "numinstreams": 1, "numoutstreams": 1, "properties": None}]
+    d = SevenZipDecompressor(coders, 1 << 30, [1 << 62], None, None, blocksize=1 << 20)
+    d.chain = [Scripted(mode, sizes) for (mode, size, sizes) in stages]
+    d._unpacksizes = [size for (mode, size, sizes) in stages]
+    d._unpacked = [0] * len(stages)
+    outs = []
+    for idx, (k, n) in enumerate(calls):
+        data = bytes((idx * 7 + i) % 251 for i in range(n))
+        for st in d.chain:
+            st.lens = []
+        before = list(d._unpacked)
+        try:
+            res = d._decompress(data, k)
+        except EOFError:
+            outs.append("EOF")      # the exception leaves the decompressor half-updated: the sequence ends here
+            break
+        lens = []
+        for i, st in enumerate(d.chain):
+            lens.append(st.lens[0] if st.lens else 0)
+        outs.append("res=%s lens=%s" % (hexs(res), ",".join(map(str, lens)) or "-"))
+    return "|".join(outs)
+
+
+def gen_stages(rng):
+    n = rng.choice([1, 2, 2, 2, 3])
+    stages = []
+    for i in range(n):
+        mode = rng.choice(["honour", "ignore"]) if i == 0 else rng.choice(["pass", "pass", "copy", "honour"])
+        size = rng.choice([0, 5, 40, 100, 1 << 40])
+        sizes = [rng.choice([0, 1, 3, 9, 30, 80]) for _ in range(rng.randrange(0, 6))]
+        stages.append((mode, size, sizes))
+    calls = [(rng.choice([0, 1, 4, 10, 50, 200]), rng.choice([0, 0, 3, 8])) for _ in range(rng.randrange(1, 7))]
+    return stages, calls
+
+
+def run_stages(ctx, n=None):
+    rng = ctx.rng
+    n = n or (3000 if ctx.thorough else 600)
+    lines, outs, classes = [], [], []
+    for _ in range(n):
+        stages, calls = gen_stages(rng)
+        lines.append("dec.stages %s %s" % (";".join("%s:%d:%s" % (m, sz, "+".join(map(str, ss)) or "-") for m, sz, ss in stages),
+                                           ";".join("%d:%d" % c for c in calls)))
+        try:
+            outs.append(impl_stages((stages, calls)))
+        except Exception as e:  # noqa
+            outs.append("exc:" + type(e).__name__ + str(e)[:60])
+        classes.append("%d-stage:%s" % (len(stages), stages[0][0]))
+    def cut(i, m):
+        parts = m.split("|")
+        if "EOF" in parts:
+            parts = parts[: parts.index("EOF") + 1]
+        return "|".join(parts)
+    ctx.correspond_model("dec.stages", lines, outs, cut, classes)
 
 
 def gen_case(rng):
